@@ -69,4 +69,24 @@ PROPS = {
             "known finding C18-F1 (patterns outside the URI grammar) is excluded from the round-trip oracle by the decidable predicate known_not_uri_clean",
         ],
     ),
+    "C19": dict(
+        coq_targets=["Props/C19.vo"],
+        harness=[dict(pkg="h_prims", bin="c19", cases={"quick": 2500, "thorough": 12000},
+                      checkers=["corr", "oracle", "known"], timeout=2400)],
+        allowed_axioms=[
+            # standard-library axioms behind Flocq's binary64 (Reals + classical logic); they enter
+            # through the definitions of the float operations that vcmp / veq / vhash mention
+            "ClassicalDedekindReals.sig_not_dec", "ClassicalDedekindReals.sig_forall_dec",
+            "FunctionalExtensionality.functional_extensionality_dep", "Classical_Prop.classic",
+        ],
+        trusted_base=[
+            "Flocq 4 binary64 (IEEE754.BinarySingleNaN/Binary/Bits) as the meaning of f64: `as f64` = binary_normalize mode_NE, partial_cmp = Bcompare, x - y = Bminus mode_NE; standard-library axioms classic, functional_extensionality_dep, sig_not_dec, sig_forall_dec (via Flocq/Reals)",
+            "num-bigint as Z; BigInt::to_f64 and f64::from_str(to_string) as correctly rounded conversions",
+            "hash compared as equality of recorded hasher input streams (model: token lists)",
+            "no hook needed (swimos_model public API)",
+        ],
+        assumptions=[
+            "theorems cover values without Float64 (recursively); with floats the ordering laws are refuted (C19_F1_*_refuted) and recorded as known finding C19-F1; equality/hash laws on floats are checked by the oracle only",
+        ],
+    ),
 }
